@@ -365,7 +365,11 @@ def show(t, depth=0):
     """compact rendering of a term for reports"""
     if not isinstance(t, tuple):
         return repr(t)
+    if not t:
+        return "()"
     k = t[0]
+    if not isinstance(k, str):
+        return "<" + " ".join(show(x) for x in t) + ">"
     if k == "const":
         return repr(t[2])
     if k == "param":
